@@ -102,7 +102,10 @@ fn real_main(args: Vec<String>) -> i32 {
                     return 2;
                 }
             };
-            parent_main(p.as_ref(), tier).exit_code
+            let _ = scratch_root(); // inherited by the workers through MC_SCRATCH_ROOT
+            let code = parent_main(p.as_ref(), tier).exit_code;
+            remove_scratch_root();
+            code
         }
         "worker" => {
             if args.len() < 9 {
@@ -142,7 +145,9 @@ fn real_main(args: Vec<String>) -> i32 {
                     return 2;
                 }
             };
+            let _ = scratch_root();
             let code = replay_main(p.as_ref(), idx);
+            remove_scratch_root();
             if code == 1 {
                 println!("VIOLATION property={} replay={}", id, args[2]);
             }
